@@ -15,7 +15,9 @@
      function names are upper-cased (core.Functions.Get); `.name` and
      `"name":` keys are the raw text (string keys are NOT un-escaped,
      visitPropertyName); string literals are un-escaped by [str_value]
-     (\n, \t only; \X stays two characters — visitStringLiteral).
+     (\n, \t only; \X stays two characters — visitStringLiteral; a trailing
+     backslash stays a backslash: the specified behaviour, see
+     proposed_fixes/C06-string-trailing-backslash).
    * Integer literals above 2^63-1 and float literals that overflow are
      rejected (strconv errors are compile errors).
    * Resolution of the places where the grammar is ambiguous or needs
@@ -40,12 +42,32 @@ From Ferret Require Export Syntax Lexer.
 Local Open Scope N_scope.
 
 Definition toks := list token.
-Definition res (A : Type) := option (A * toks).
 
-Definition bindr {A B} (r : res A) (k : A -> toks -> res B) : res B :=
-  match r with Some (a, ts) => k a ts | None => None end.
-Definition mapr {A B} (f : A -> B) (r : res A) : res B :=
-  match r with Some (a, ts) => Some (f a, ts) | None => None end.
+(* result of a parsing function: the value and the remaining tokens, a
+   definite failure (syntax error), or "out of fuel" (never the case with the
+   fuel [fuel_for] gives; every theorem excludes it) *)
+Inductive pres (A : Type) : Type :=
+| POk (a : A) (r : toks)
+| PFail
+| PFuel.
+Arguments POk {A} a r.
+Arguments PFail {A}.
+Arguments PFuel {A}.
+
+Definition bindr {A B} (r : pres A) (k : A -> toks -> pres B) : pres B :=
+  match r with POk a ts => k a ts | PFail => PFail | PFuel => PFuel end.
+Definition mapr {A B} (f : A -> B) (r : pres A) : pres B :=
+  match r with POk a ts => POk (f a) ts | PFail => PFail | PFuel => PFuel end.
+(* [r] must succeed and be followed by a token of class [is]; continue after it *)
+Definition bind_tok {A B} (r : pres A) (is : kind -> bool) (k : A -> toks -> pres B) : pres B :=
+  match r with
+  | POk a ((kk, _) :: r') => if is kk then k a r' else PFail
+  | POk _ [] => PFail
+  | PFail => PFail
+  | PFuel => PFuel
+  end.
+Definition of_opt {A} (o : option (A * toks)) : pres A :=
+  match o with Some (a, r) => POk a r | None => PFail end.
 
 (* ------------------------------------------------------ word classes *)
 Definition is_safe_rw (k : kind) : bool :=
@@ -128,25 +150,24 @@ Definition float_value (t : bytes) : option N :=
 Definition quote_width (t : bytes) : nat := match t with 194 :: _ => 2%nat | _ => 1%nat end.
 Definition str_inner (t : bytes) : bytes :=
   let w := quote_width t in firstn (List.length t - 2 * w) (skipn w t).
-Definition str_closing (t : bytes) : bytes :=
-  let w := quote_width t in skipn (List.length t - w) t.
-(* visitStringLiteral: \n and \t are rewritten, \X stays; a backslash that is
-   the last character of the literal takes the closing quote with it *)
-Fixpoint unesc (s closing : bytes) : bytes :=
+(* visitStringLiteral: \n and \t are rewritten, every other \X stays as the
+   two characters; a backslash that is the last character of the literal
+   (possible in the back-tick styles) stays a backslash *)
+Fixpoint unesc (s : bytes) : bytes :=
   match s with
   | [] => []
   | c :: r =>
       if c =? 92 then
         match r with
         | d :: r' =>
-            if d =? 110 then 10 :: unesc r' closing
-            else if d =? 116 then 9 :: unesc r' closing
-            else 92 :: d :: unesc r' closing
-        | [] => 92 :: closing
+            if d =? 110 then 10 :: unesc r'
+            else if d =? 116 then 9 :: unesc r'
+            else 92 :: d :: unesc r'
+        | [] => [92]
         end
-      else c :: unesc r closing
+      else c :: unesc r
   end.
-Definition str_value (t : bytes) : bytes := unesc (str_inner t) (str_closing t).
+Definition str_value (t : bytes) : bytes := unesc (str_inner t).
 
 Definition bool_value (t : bytes) : bool := bytes_eqb (upper_name t) (bs "TRUE").
 
@@ -244,21 +265,26 @@ Definition starts_expr (k : kind) (k2 : option kind) : bool :=
 
 (* =====================================================================
    Everything below the expression levels is parameterised by the
-   expression parser [pe lv ts] (level, tokens), so that the only recursive
-   function over expressions is [parse_at]. *)
+   expression parser [pe tb lv ts], so that the only recursive function over
+   expressions is [parse_at]. *)
 Section WithExpr.
   (* [pe tb lv ts]: parse an expression of level [lv]; [tb] = we are inside the
      then-branch of a ternary (at the same bracket depth), where a ':' is
      still expected *)
-  Variable pe : bool -> nat -> toks -> res expr.
+  Variable pe : bool -> nat -> toks -> pres expr.
 
-  (* the ternary can be read after this '?' *)
-  Definition tern_ahead (r : toks) : bool :=
+  Definition is_colon (k : kind) : bool := match k with KColon => true | _ => false end.
+  Definition is_rparen (k : kind) : bool := match k with KRParen => true | _ => false end.
+  Definition is_rbrack (k : kind) : bool := match k with KRBrack => true | _ => false end.
+
+  (* the ternary can be read after this '?'; None = out of fuel *)
+  Definition tern_ahead (r : toks) : option bool :=
     match r with
-    | (KColon, _) :: _ => true
+    | (KColon, _) :: _ => Some true
     | _ => match pe false 1%nat r with
-           | Some (_, (KColon, _) :: _) => true
-           | _ => false
+           | POk _ ((KColon, _) :: _) => Some true
+           | PFuel => None
+           | _ => Some false
            end
     end.
 
@@ -275,86 +301,85 @@ Section WithExpr.
      then-branch the '?' is the ternary's whenever a ternary can be read
      ([tern_ahead]); inside a then-branch, where a ':' is expected anyway, it
      is the error operator whenever the next token can follow an operand. *)
-  Definition postfix_q (tb : bool) (e : expr) (ts : toks) : res expr :=
+  Definition postfix_q (tb : bool) (e : expr) (ts : toks) : pres expr :=
     match ts with
     | (KQuestion, _) :: r =>
         let tern := if tb then match r with
-                               | (k, _) :: _ => negb (follows_operand k)
-                               | [] => false
+                               | (k, _) :: _ => Some (negb (follows_operand k))
+                               | [] => Some false
                                end
                     else tern_ahead r in
-        if tern then Some (e, ts) else Some (ESuppress e, r)
-    | _ => Some (e, ts)
+        match tern with
+        | Some true => POk e ts
+        | Some false => POk (ESuppress e) r
+        | None => PFuel
+        end
+    | _ => POk e ts
     end.
 
   (* expression (',' expression)* ','? close  — the opening token is consumed *)
-  Fixpoint parse_seq (fuel : nat) (is_close : kind -> bool) (ts : toks) : res (list expr) :=
+  Fixpoint parse_seq (fuel : nat) (is_close : kind -> bool) (ts : toks) : pres (list expr) :=
     match fuel with
-    | O => None
+    | O => PFuel
     | S f =>
         match ts with
-        | [] => None
+        | [] => PFail
         | (k, _) :: r =>
-            if is_close k then Some ([], r)
+            if is_close k then POk [] r
             else
               match pe false 1%nat ts with
-              | Some (e, (k', _) :: r') =>
-                  if is_close k' then Some ([e], r')
+              | POk e ((k', _) :: r') =>
+                  if is_close k' then POk [e] r'
                   else match k' with
                        | KComma => mapr (cons e) (parse_seq f is_close r')
-                       | _ => None
+                       | _ => PFail
                        end
-              | _ => None
+              | POk _ [] => PFail
+              | PFail => PFail
+              | PFuel => PFuel
               end
         end
     end.
-  Definition close_paren (k : kind) : bool := match k with KRParen => true | _ => false end.
-  Definition close_brack (k : kind) : bool := match k with KRBrack => true | _ => false end.
 
-  Definition parse_call (fuel : nat) (ts : toks) : res expr :=
+  Definition parse_call (fuel : nat) (ts : toks) : pres expr :=
     match call_name ts [] with
-    | Some (f, r) => mapr (ECall (upper_name f)) (parse_seq fuel close_paren r)
-    | None => None
+    | Some (f, r) => mapr (ECall (upper_name f)) (parse_seq fuel is_rparen r)
+    | None => PFail
     end.
 
   (* propertyName after '.' *)
-  Definition prop_name (ts : toks) : res expr :=
+  Definition prop_name (ts : toks) : pres expr :=
     match ts with
-    | (KString, t) :: r => Some (EStr (str_inner t), r)
-    | (KParam, _) :: (k, t) :: r => if is_varname k then Some (EParam t, r) else None
-    | (k, t) :: r => if is_word k then Some (EStr t, r) else None
-    | [] => None
+    | (KString, t) :: r => POk (EStr (str_inner t)) r
+    | (KParam, _) :: (k, t) :: r => if is_varname k then POk (EParam t) r else PFail
+    | (k, t) :: r => if is_word k then POk (EStr t) r else PFail
+    | [] => PFail
     end.
 
   (* memberExpressionPath* *)
-  Fixpoint parse_path (fuel : nat) (ts : toks) : res (list seg) :=
+  Fixpoint parse_path (fuel : nat) (ts : toks) : pres (list seg) :=
     match fuel with
-    | O => None
+    | O => PFuel
     | S f =>
         match ts with
         | (KDot, _) :: r =>
             bindr (prop_name r) (fun e r' => mapr (cons (Seg false e)) (parse_path f r'))
         | (KQuestion, _) :: (KDot, _) :: (KLBrack, _) :: r =>
-            match pe false 1%nat r with
-            | Some (e, (KRBrack, _) :: r') => mapr (cons (Seg true e)) (parse_path f r')
-            | _ => None
-            end
+            bind_tok (pe false 1%nat r) is_rbrack (fun e r' => mapr (cons (Seg true e)) (parse_path f r'))
         | (KQuestion, _) :: (KDot, _) :: r =>
             bindr (prop_name r) (fun e r' => mapr (cons (Seg true e)) (parse_path f r'))
         | (KLBrack, _) :: r =>
-            match pe false 1%nat r with
-            | Some (e, (KRBrack, _) :: r') => mapr (cons (Seg false e)) (parse_path f r')
-            | _ => None
-            end
-        | _ => Some ([], ts)
+            bind_tok (pe false 1%nat r) is_rbrack (fun e r' => mapr (cons (Seg false e)) (parse_path f r'))
+        | _ => POk [] ts
         end
     end.
 
-  Definition with_path (fuel : nat) (src : expr) (ts : toks) : res expr :=
+  Definition with_path (fuel : nat) (src : expr) (ts : toks) : pres expr :=
     match parse_path fuel ts with
-    | Some ([], r) => Some (src, r)
-    | Some (p, r) => Some (EMember src p, r)
-    | None => None
+    | POk [] r => POk src r
+    | POk p r => POk (EMember src p) r
+    | PFail => PFail
+    | PFuel => PFuel
     end.
 
   Definition starts_path (ts : toks) : bool :=
@@ -366,92 +391,89 @@ Section WithExpr.
     end.
 
   (* rangeOperand after '..' *)
-  Definition range_rhs (a : expr) (ts : toks) : res expr :=
+  Definition range_rhs (a : expr) (ts : toks) : pres expr :=
     match ts with
-    | (KInt, t) :: r => match int_value t with Some z => Some (ERange a (EInt z), r) | None => None end
-    | (KParam, _) :: (k, t) :: r => if is_varname k then Some (ERange a (EParam t), r) else None
-    | (k, t) :: r => if is_varname k then Some (ERange a (EVar t), r) else None
-    | [] => None
+    | (KInt, t) :: r => match int_value t with Some z => POk (ERange a (EInt z)) r | None => PFail end
+    | (KParam, _) :: (k, t) :: r => if is_varname k then POk (ERange a (EParam t)) r else PFail
+    | (k, t) :: r => if is_varname k then POk (ERange a (EVar t)) r else PFail
+    | [] => PFail
     end.
 
   (* a variable / parameter operand: range, member path, or itself *)
-  Definition after_name (fuel : nat) (a : expr) (ts : toks) : res expr :=
+  Definition after_name (fuel : nat) (a : expr) (ts : toks) : pres expr :=
     match ts with
     | (KRange, _) :: r => range_rhs a r
     | _ => with_path fuel a ts
     end.
 
   (* after functionCall: member path, error operator, or nothing *)
-  Definition after_call (tb : bool) (fuel : nat) (c : expr) (ts : toks) : res expr :=
+  Definition after_call (tb : bool) (fuel : nat) (c : expr) (ts : toks) : pres expr :=
     if starts_path ts then with_path fuel c ts else postfix_q tb c ts.
 
   (* objectLiteral after '{' *)
-  Fixpoint parse_props (fuel : nat) (ts : toks) : res (list prop) :=
+  Fixpoint parse_props (fuel : nat) (ts : toks) : pres (list prop) :=
     match fuel with
-    | O => None
+    | O => PFuel
     | S f =>
-        let continue (p : prop) (r : toks) : res (list prop) :=
+        let continue (p : prop) (r : toks) : pres (list prop) :=
           match r with
           | (KComma, _) :: r' => mapr (cons p) (parse_props f r')
-          | (KRBrace, _) :: r' => Some ([p], r')
-          | _ => None
+          | (KRBrace, _) :: r' => POk [p] r'
+          | _ => PFail
           end in
         match ts with
-        | (KRBrace, _) :: r => Some ([], r)
+        | (KRBrace, _) :: r => POk [] r
         | (KLBrack, _) :: r =>
-            match pe false 1%nat r with
-            | Some (k, (KRBrack, _) :: (KColon, _) :: r') =>
-                bindr (pe false 1%nat r') (fun v r'' => continue (PComputed k v) r'')
-            | _ => None
-            end
+            bind_tok (pe false 1%nat r) is_rbrack (fun k r1 =>
+              match r1 with
+              | (KColon, _) :: r' => bindr (pe false 1%nat r') (fun v r'' => continue (PComputed k v) r'')
+              | _ => PFail
+              end)
         | (KParam, _) :: (k, t) :: (KColon, _) :: r =>
             if is_varname k then bindr (pe false 1%nat r) (fun v r' => continue (PComputed (EParam t) v) r')
-            else None
+            else PFail
         | (KString, t) :: (KColon, _) :: r =>
             bindr (pe false 1%nat r) (fun v r' => continue (PNamed (str_inner t) v) r')
         | (k, t) :: (KColon, _) :: r =>
-            if is_word k then bindr (pe false 1%nat r) (fun v r' => continue (PNamed t v) r') else None
-        | (k, t) :: r => if is_varname k then continue (PShort t) r else None
-        | [] => None
+            if is_word k then bindr (pe false 1%nat r) (fun v r' => continue (PNamed t v) r') else PFail
+        | (k, t) :: r => if is_varname k then continue (PShort t) r else PFail
+        | [] => PFail
         end
     end.
 
   (* functionCallExpression in statement position: '?' is the error operator *)
-  Definition call_stmt (fuel : nat) (ts : toks) : res expr :=
+  Definition call_stmt (fuel : nat) (ts : toks) : pres expr :=
     match parse_call fuel ts with
-    | Some (c, (KQuestion, _) :: r) => Some (ESuppress c, r)
+    | POk c ((KQuestion, _) :: r) => POk (ESuppress c) r
     | x => x
     end.
 
   (* forExpressionSource / limitClauseValue: call, array, object, variable,
      member expression, range, parameter (no parentheses, no other literal) *)
-  Definition parse_operand (fuel : nat) (allow_int : bool) (ts : toks) : res expr :=
+  Definition parse_operand (fuel : nat) (allow_int : bool) (ts : toks) : pres expr :=
     if is_call_start ts then
-      match parse_call fuel ts with
-      | Some (c, r) =>
-          if starts_path r then with_path fuel c r
-          else match r with
-               | (KQuestion, _) :: r' => Some (ESuppress c, r')
-               | _ => Some (c, r)
-               end
-      | None => None
-      end
+      bindr (parse_call fuel ts) (fun c r =>
+        if starts_path r then with_path fuel c r
+        else match r with
+             | (KQuestion, _) :: r' => POk (ESuppress c) r'
+             | _ => POk c r
+             end)
     else
       match ts with
       | (KInt, t) :: (KRange, _) :: r =>
-          match int_value t with Some z => range_rhs (EInt z) r | None => None end
+          match int_value t with Some z => range_rhs (EInt z) r | None => PFail end
       | (KInt, t) :: r =>
-          if allow_int then match int_value t with Some z => Some (EInt z, r) | None => None end
-          else None
-      | (KParam, _) :: (k, t) :: r => if is_varname k then after_name fuel (EParam t) r else None
-      | (KLBrack, _) :: r => bindr (parse_seq fuel close_brack r) (fun es r' => with_path fuel (EArr es) r')
+          if allow_int then match int_value t with Some z => POk (EInt z) r | None => PFail end
+          else PFail
+      | (KParam, _) :: (k, t) :: r => if is_varname k then after_name fuel (EParam t) r else PFail
+      | (KLBrack, _) :: r => bindr (parse_seq fuel is_rbrack r) (fun es r' => with_path fuel (EArr es) r')
       | (KLBrace, _) :: r => bindr (parse_props fuel r) (fun ps r' => with_path fuel (EObj ps) r')
-      | (k, t) :: r => if is_varname k then after_name fuel (EVar t) r else None
-      | [] => None
+      | (k, t) :: r => if is_varname k then after_name fuel (EVar t) r else PFail
+      | [] => PFail
       end.
 
   (* RETURN [DISTINCT] expression, the RETURN token consumed *)
-  Definition parse_return (ts : toks) : res (bool * expr) :=
+  Definition parse_return (ts : toks) : pres (bool * expr) :=
     match ts with
     | (KDistinct, _) :: (k, t) :: r =>
         let k2 := match r with (k2, _) :: _ => Some k2 | [] => None end in
@@ -461,135 +483,136 @@ Section WithExpr.
     end.
 
   (* LET name = expression, the LET token consumed *)
-  Definition parse_let (ts : toks) : res (name * expr) :=
+  Definition parse_let (ts : toks) : pres (name * expr) :=
     match ts with
     | (k, t) :: (KAssign, _) :: r =>
-        if is_varname k || is_loopvar k then mapr (fun e => (t, e)) (pe false 1%nat r) else None
-    | _ => None
+        if is_varname k || is_loopvar k then mapr (fun e => (t, e)) (pe false 1%nat r) else PFail
+    | _ => PFail
     end.
 
   (* sortClauseExpression (',' sortClauseExpression)* *)
-  Fixpoint parse_sort (fuel : nat) (ts : toks) : res (list (expr * bool)) :=
+  Fixpoint parse_sort (fuel : nat) (ts : toks) : pres (list (expr * bool)) :=
     match fuel with
-    | O => None
+    | O => PFuel
     | S f =>
-        match pe false 1%nat ts with
-        | Some (e, r) =>
-            let '(d, r1) := match r with
-                            | (KSortDir, t) :: r' => (bytes_eqb (upper_name t) (bs "DESC"), r')
-                            | _ => (false, r)
-                            end in
-            match r1 with
-            | (KComma, _) :: r2 => mapr (cons (e, d)) (parse_sort f r2)
-            | _ => Some ([(e, d)], r1)
-            end
-        | None => None
-        end
+        bindr (pe false 1%nat ts) (fun e r =>
+          let '(d, r1) := match r with
+                          | (KSortDir, t) :: r' => (bytes_eqb (upper_name t) (bs "DESC"), r')
+                          | _ => (false, r)
+                          end in
+          match r1 with
+          | (KComma, _) :: r2 => mapr (cons (e, d)) (parse_sort f r2)
+          | _ => POk [(e, d)] r1
+          end)
     end.
 
   (* collectSelector (',' collectSelector)* : Identifier '=' expression *)
-  Fixpoint parse_groups (fuel : nat) (ts : toks) : res (list (name * expr)) :=
+  Fixpoint parse_groups (fuel : nat) (ts : toks) : pres (list (name * expr)) :=
     match fuel with
-    | O => None
+    | O => PFuel
     | S f =>
         match ts with
         | (KIdent, x) :: (KAssign, _) :: r =>
-            match pe false 1%nat r with
-            | Some (e, (KComma, _) :: r') => mapr (cons (x, e)) (parse_groups f r')
-            | Some (e, r') => Some ([(x, e)], r')
-            | None => None
-            end
-        | _ => None
+            bindr (pe false 1%nat r) (fun e r' =>
+              match r' with
+              | (KComma, _) :: r'' => mapr (cons (x, e)) (parse_groups f r'')
+              | _ => POk [(x, e)] r'
+              end)
+        | _ => PFail
         end
     end.
 
   (* collectAggregateSelector list: Identifier '=' functionCall *)
-  Fixpoint parse_aggrs (fuel : nat) (ts : toks) : res (list (name * name * list expr)) :=
+  Fixpoint parse_aggrs (fuel : nat) (ts : toks) : pres (list (name * name * list expr)) :=
     match fuel with
-    | O => None
+    | O => PFuel
     | S f =>
         match ts with
         | (KIdent, x) :: (KAssign, _) :: r =>
-            match parse_call fuel r with
-            | Some (ECall fn args, (KComma, _) :: r') => mapr (cons (x, fn, args)) (parse_aggrs f r')
-            | Some (ECall fn args, r') => Some ([(x, fn, args)], r')
-            | _ => None
-            end
-        | _ => None
+            bindr (parse_call fuel r) (fun c r' =>
+              match c with
+              | ECall fn args =>
+                  match r' with
+                  | (KComma, _) :: r'' => mapr (cons (x, fn, args)) (parse_aggrs f r'')
+                  | _ => POk [(x, fn, args)] r'
+                  end
+              | _ => PFail
+              end)
+        | _ => PFail
         end
     end.
 
   (* what may follow the grouping of COLLECT *)
-  Definition parse_ctail (fuel : nat) (ts : toks) : res ctail :=
+  Definition parse_ctail (fuel : nat) (ts : toks) : pres ctail :=
     match ts with
-    | (KWith, _) :: (KCount, _) :: (KInto, _) :: (KIdent, x) :: r => Some (CTCount x, r)
+    | (KWith, _) :: (KCount, _) :: (KInto, _) :: (KIdent, x) :: r => POk (CTCount x) r
     | (KAggregate, _) :: r => mapr CTAggr (parse_aggrs fuel r)
     | (KInto, _) :: (KIdent, x) :: (KAssign, _) :: r => mapr (fun e => CTInto x (Some e)) (pe false 1%nat r)
-    | (KInto, _) :: (KIdent, x) :: (KKeep, _) :: (KIdent, _) :: r => Some (CTInto x None, r)
-    | (KInto, _) :: (KIdent, x) :: r => Some (CTInto x None, r)
-    | _ => Some (CTNone, ts)
+    | (KInto, _) :: (KIdent, x) :: (KKeep, _) :: (KIdent, _) :: r => POk (CTInto x None) r
+    | (KInto, _) :: (KIdent, x) :: r => POk (CTInto x None) r
+    | _ => POk CTNone ts
     end.
 
-  Definition parse_collect (fuel : nat) (ts : toks) : res fclause :=
+  Definition parse_collect (fuel : nat) (ts : toks) : pres fclause :=
     match ts with
     | (KIdent, _) :: _ =>
         bindr (parse_groups fuel ts) (fun gs r => mapr (CCollect gs) (parse_ctail fuel r))
     | (KWith, _) :: _ | (KAggregate, _) :: _ =>
         match parse_ctail fuel ts with
-        | Some (CTNone, _) => None
-        | Some (CTInto _ _, _) => None
+        | POk CTNone _ => PFail
+        | POk (CTInto _ _) _ => PFail
         | x => mapr (CCollect []) x
         end
-    | _ => None
+    | _ => PFail
     end.
 
   (* limitClauseValue: integer, parameter, variable, call, member expression *)
-  Definition limit_value (fuel : nat) (ts : toks) : res expr :=
+  Definition limit_value (fuel : nat) (ts : toks) : pres expr :=
     match parse_operand fuel true ts with
-    | Some (EArr _, _) | Some (EObj _, _) | Some (ERange _ _, _) => None
+    | POk (EArr _) _ | POk (EObj _) _ | POk (ERange _ _) _ => PFail
     | x => x
     end.
-  Definition parse_limit (fuel : nat) (ts : toks) : res fclause :=
-    match limit_value fuel ts with
-    | Some (a, (KComma, _) :: r) => mapr (fun b => CLimit (Some a) b) (limit_value fuel r)
-    | Some (a, r) => Some (CLimit None a, r)
-    | None => None
-    end.
+  Definition parse_limit (fuel : nat) (ts : toks) : pres fclause :=
+    bindr (limit_value fuel ts) (fun a r =>
+      match r with
+      | (KComma, _) :: r' => mapr (fun b => CLimit (Some a) b) (limit_value fuel r')
+      | _ => POk (CLimit None a) r
+      end).
 
   (* forExpression after the FOR token, and forExpressionBody* forExpressionReturn *)
-  Fixpoint parse_for (fuel : nat) (ts : toks) : res forq :=
+  Fixpoint parse_for (fuel : nat) (ts : toks) : pres forq :=
     match fuel with
-    | O => None
+    | O => PFuel
     | S f =>
         match ts with
         | (kv, v) :: (KComma, _) :: (KIdent, k) :: (KIn, _) :: r =>
             if is_loopvar kv then
               bindr (parse_operand fuel false r) (fun src r' =>
                 mapr (fun br => ForIn v (Some k) src (fst br) (snd br)) (parse_clauses f r'))
-            else None
+            else PFail
         | (kv, v) :: (KIn, _) :: r =>
             if is_loopvar kv then
               bindr (parse_operand fuel false r) (fun src r' =>
                 mapr (fun br => ForIn v None src (fst br) (snd br)) (parse_clauses f r'))
-            else None
+            else PFail
         | (kv, v) :: (KDo, _) :: (KWhile, _) :: r =>
             if is_loopvar kv then
               bindr (pe false 1%nat r) (fun c r' =>
                 mapr (fun br => ForWhile v true c (fst br) (snd br)) (parse_clauses f r'))
-            else None
+            else PFail
         | (kv, v) :: (KWhile, _) :: r =>
             if is_loopvar kv then
               bindr (pe false 1%nat r) (fun c r' =>
                 mapr (fun br => ForWhile v false c (fst br) (snd br)) (parse_clauses f r'))
-            else None
-        | _ => None
+            else PFail
+        | _ => PFail
         end
     end
-  with parse_clauses (fuel : nat) (ts : toks) : res (list fclause * fret) :=
+  with parse_clauses (fuel : nat) (ts : toks) : pres (list fclause * fret) :=
     match fuel with
-    | O => None
+    | O => PFuel
     | S f =>
-        let more (c : fclause) (r : toks) : res (list fclause * fret) :=
+        let more (c : fclause) (r : toks) : pres (list fclause * fret) :=
           mapr (fun br => (c :: fst br, snd br)) (parse_clauses f r) in
         match ts with
         | (KReturn, _) :: r => mapr (fun de => ([], RReturn (fst de) (snd de))) (parse_return r)
@@ -600,12 +623,12 @@ Section WithExpr.
         | (KLimit, _) :: r => bindr (parse_limit fuel r) more
         | (KCollect, _) :: r => bindr (parse_collect fuel r) more
         | _ => if is_call_start ts then bindr (call_stmt fuel ts) (fun c r' => more (CCall c) r')
-               else None
+               else PFail
         end
     end.
 
   (* expressionAtom without its left-recursive alternatives *)
-  Definition primary (tb : bool) (fuel : nat) (ts : toks) : res expr :=
+  Definition primary (tb : bool) (fuel : nat) (ts : toks) : pres expr :=
     if is_call_start ts then bindr (parse_call fuel ts) (after_call tb fuel)
     else
       match ts with
@@ -613,100 +636,75 @@ Section WithExpr.
           match int_value t with
           | Some z => match r with
                       | (KRange, _) :: r' => range_rhs (EInt z) r'
-                      | _ => Some (EInt z, r)
+                      | _ => POk (EInt z) r
                       end
-          | None => None
+          | None => PFail
           end
-      | (KFloat, t) :: r => match float_value t with Some b => Some (EFloat b, r) | None => None end
-      | (KString, t) :: r => Some (EStr (str_value t), r)
-      | (KBool, t) :: r => Some (EBool (bool_value t), r)
-      | (KNone, _) :: r => Some (ENone, r)
-      | (KNull, _) :: r => Some (ENone, r)
-      | (KParam, _) :: (k, t) :: r => if is_varname k then after_name fuel (EParam t) r else None
-      | (KLBrack, _) :: r => bindr (parse_seq fuel close_brack r) (fun es r' => with_path fuel (EArr es) r')
+      | (KFloat, t) :: r => match float_value t with Some b => POk (EFloat b) r | None => PFail end
+      | (KString, t) :: r => POk (EStr (str_value t)) r
+      | (KBool, t) :: r => POk (EBool (bool_value t)) r
+      | (KNone, _) :: r => POk ENone r
+      | (KNull, _) :: r => POk ENone r
+      | (KParam, _) :: (k, t) :: r => if is_varname k then after_name fuel (EParam t) r else PFail
+      | (KLBrack, _) :: r => bindr (parse_seq fuel is_rbrack r) (fun es r' => with_path fuel (EArr es) r')
       | (KLBrace, _) :: r => bindr (parse_props fuel r) (fun ps r' => with_path fuel (EObj ps) r')
       | (KLParen, _) :: (KFor, _) :: r =>
-          match parse_for fuel r with
-          | Some (q, (KRParen, _) :: r') => postfix_q tb (ESub q) r'
-          | _ => None
-          end
+          bind_tok (parse_for fuel r) is_rparen (fun q r' => postfix_q tb (ESub q) r')
       | (KLParen, _) :: r =>
-          match pe false 1%nat r with
-          | Some (e, (KRParen, _) :: r') => postfix_q tb e r'
-          | _ => None
-          end
-      | (k, t) :: r => if is_varname k then after_name fuel (EVar t) r else None
-      | [] => None
+          bind_tok (pe false 1%nat r) is_rparen (fun e r' => postfix_q tb e r')
+      | (k, t) :: r => if is_varname k then after_name fuel (EVar t) r else PFail
+      | [] => PFail
       end.
 
   (* left-associative operator loops *)
-  Fixpoint bin_loop (tb : bool) (fuel : nat) (lv : nat) (a : expr) (ts : toks) : res expr :=
+  Fixpoint bin_loop (tb : bool) (fuel : nat) (lv : nat) (a : expr) (ts : toks) : pres expr :=
     match fuel with
-    | O => None
+    | O => PFuel
     | S f =>
         match binop lv ts with
         | Some (mk, r) => bindr (pe tb (S lv) r) (fun b r' => bin_loop tb f lv (mk a b) r')
-        | None => Some (a, ts)
+        | None => POk a ts
         end
     end.
 
-  Fixpoint tern_loop (tb : bool) (fuel : nat) (c : expr) (ts : toks) : res expr :=
+  Fixpoint tern_loop (tb : bool) (fuel : nat) (c : expr) (ts : toks) : pres expr :=
     match fuel with
-    | O => None
+    | O => PFuel
     | S f =>
         match ts with
         | (KQuestion, _) :: (KColon, _) :: r =>
             bindr (pe tb 2%nat r) (fun e r' => tern_loop tb f (ECond c None e) r')
         | (KQuestion, _) :: r =>
-            match pe true 1%nat r with
-            | Some (t, (KColon, _) :: r') =>
-                bindr (pe tb 2%nat r') (fun e r'' => tern_loop tb f (ECond c (Some t) e) r'')
-            | _ => None
-            end
-        | _ => Some (c, ts)
+            bind_tok (pe true 1%nat r) is_colon (fun t r' =>
+              bindr (pe tb 2%nat r') (fun e r'' => tern_loop tb f (ECond c (Some t) e) r''))
+        | _ => POk c ts
         end
     end.
 
-  (* body: bodyStatement* bodyExpression, then end of input *)
-  Fixpoint parse_body (fuel : nat) (ts : toks) : option program :=
+  (* body: bodyStatement* bodyExpression — the program read from the front of
+     the token list, and the tokens that follow it *)
+  Fixpoint parse_body (fuel : nat) (ts : toks) : pres program :=
     match fuel with
-    | O => None
+    | O => PFuel
     | S f =>
-        let more (s : stmt) (r : toks) : option program :=
-          match parse_body f r with
-          | Some p => Some {| p_stmts := s :: p_stmts p; p_ret := p_ret p |}
-          | None => None
-          end in
+        let more (s : stmt) (r : toks) : pres program :=
+          mapr (fun p => {| p_stmts := s :: p_stmts p; p_ret := p_ret p |}) (parse_body f r) in
         match ts with
         | (KReturn, _) :: r =>
-            match parse_return r with
-            | Some (de, []) => Some {| p_stmts := []; p_ret := BReturn (snd de) |}
-            | _ => None
-            end
+            mapr (fun de => {| p_stmts := []; p_ret := BReturn (snd de) |}) (parse_return r)
         | (KFor, _) :: r =>
-            match parse_for fuel r with
-            | Some (q, []) => Some {| p_stmts := []; p_ret := BFor q |}
-            | _ => None
-            end
-        | (KLet, _) :: r =>
-            match parse_let r with
-            | Some (xe, r') => more (SLet (fst xe) (snd xe)) r'
-            | None => None
-            end
-        | _ => if is_call_start ts then
-                 match call_stmt fuel ts with
-                 | Some (c, r') => more (SCall c) r'
-                 | None => None
-                 end
-               else None
+            mapr (fun q => {| p_stmts := []; p_ret := BFor q |}) (parse_for fuel r)
+        | (KLet, _) :: r => bindr (parse_let r) (fun xe r' => more (SLet (fst xe) (snd xe)) r')
+        | _ => if is_call_start ts then bindr (call_stmt fuel ts) (fun c r' => more (SCall c) r')
+               else PFail
         end
     end.
 End WithExpr.
 
 (* ------------------------------------------------- the expression levels *)
-Fixpoint parse_at (fuel : nat) (tb : bool) (lv : nat) (ts : toks) {struct fuel} : res expr :=
+Fixpoint parse_at (fuel : nat) (tb : bool) (lv : nat) (ts : toks) {struct fuel} : pres expr :=
   match fuel with
-  | O => None
+  | O => PFuel
   | S f =>
       let pe := parse_at f in
       match lv with
@@ -718,7 +716,7 @@ Fixpoint parse_at (fuel : nat) (tb : bool) (lv : nat) (ts : toks) {struct fuel} 
               | Some o => mapr (EUn o) (pe tb 4%nat r)
               | None => pe tb 5%nat ts
               end
-          | [] => None
+          | [] => PFail
           end
       | 0%nat | 2%nat | 3%nat | 5%nat | 6%nat | 7%nat | 8%nat | 9%nat | 10%nat | 11%nat =>
           bindr (pe tb (S lv) ts) (bin_loop pe tb f lv)
@@ -728,11 +726,20 @@ Fixpoint parse_at (fuel : nat) (tb : bool) (lv : nat) (ts : toks) {struct fuel} 
 
 Definition fuel_for (ts : toks) : nat := (16 * List.length ts + 40)%nat.
 
-Definition parse_expr (ts : toks) : res expr :=
+Definition parse_expr (ts : toks) : pres expr :=
   let f := fuel_for ts in parse_at f false 1%nat ts.
 
-Definition parse_program (ts : toks) : option program :=
+(* the program at the front of [ts] and what is left over
+   (this is all the generated parser does: its start rule has no EOF) *)
+Definition parse_prefix (ts : toks) : pres program :=
   let f := fuel_for ts in parse_body (parse_at f) f ts.
+
+(* a query is a program followed by the end of the input *)
+Definition parse_program (ts : toks) : option program :=
+  match parse_prefix ts with
+  | POk p [] => Some p
+  | _ => None
+  end.
 
 Definition unsupported_kind (k : kind) : bool :=
   match k with KUse | KWaitfor => true | _ => false end.
